@@ -43,6 +43,13 @@ static void string_replace_all_occurrences_with_char(char *s, const char *occur,
 	}
 }
 
+void json_pointer_unescape_token(char *token)
+{
+	/* RFC states that we first must eval all ~1 then all ~0 */
+	string_replace_all_occurrences_with_char(token, "~1", '/');
+	string_replace_all_occurrences_with_char(token, "~0", '~');
+}
+
 static int is_valid_index(const char *path, size_t *idx)
 {
 	size_t i, len = strlen(path);
